@@ -134,3 +134,19 @@ Print Assumptions C09_outbound_oversize_alone.
 Print Assumptions C09_outbound_frames_within_limit.
 Print Assumptions C09_outbound_frames_accepted.
 Print Assumptions server_poll_fuel_sufficient.
+
+(* ---- per connection (package H): between polls every inbound stream buffers less than one maximum frame plus one read,
+   so a connection with s live inbound streams buffers at most s * (10 + 4 MiB + 8192) bytes *)
+From BS Require Import Bytes Varint Varint_proofs Cid Prefix Hasher Proto Incoming Qp ProtoCodec RefProto Frame Framed Codec Frame_proofs Framed_proofs ProtoCodec_proofs RefProto_proofs Codec_proofs Prefix_proofs Incoming_proofs Streams Streams_proofs Streams_props.
+From Coq Require Import ZArith ZifyBool ZifyN ZifyNat Lia.
+Open Scope N_scope.
+
+Theorem C09_conn_buffer_bound :
+  forall (Sz : N) (Hh : hash_fn) (chk : bool) (streams : list (list read_ev)) (schedule : list N),
+  Forall wf_events streams ->
+  let c := snd (snd (conn_run_full Sz Hh chk streams schedule)) in
+  Forall (fun st : sstate => len (ss_buf st) < 10 + max_message_size + 8192) c /\
+  conn_buffered c <= conn_alive c * (10 + max_message_size + 8192) /\ conn_alive c <= len streams.
+Proof. exact (@Streams_proofs.C09_conn_buffer_bound). Qed.
+
+Print Assumptions C09_conn_buffer_bound.
